@@ -54,4 +54,12 @@ PROPS = {
         ],
         trusted=["Go runtime below the modelled slicing semantics"],
     ),
+    "C16": dict(
+        lean_modules=["Liftbridge.Props.C16"],
+        gen_sources=LOG_SOURCES,
+        go_pkg="./server/commitlog", test="TestVerifC16",
+        level="proof",
+        assumptions=LOG_ASSUME + ["concurrent publishers are serialised by the partition leader's single message-processing loop with batch size 1 (extracted fact); their interleavings are the arrival orders"],
+        trusted=["NATS delivery order to the leader = arrival order (any order is covered by the theorems)"],
+    ),
 }
